@@ -67,7 +67,7 @@ def _reject_job(k):
 def run(tier, only=None):
     R = Run("C08", tier, "model_checking")
     depth = 3 if tier == "quick" else 4
-    behs, types = lawcheck.behaviours(R, ["ImageGround", "ScaleLen", "Translate", "Mirror", "Permute", "ScaleV", "Reorder", "Reexpress"], "{c \\in BaseClasses : c.ground}", depth, factors="{<<3, 1>>}", must_contain={"ImageGround"})
+    behs, types = lawcheck.behaviours(R, ["ImageGround", "ScaleLen", "Translate", "Mirror", "Permute", "ScaleV", "Reorder", "Reexpress"], "{c \\in BaseClasses : c.ground}", depth, factors="{<<3, 1>>}", must_contain={"ImageGround"}, keep=300 if tier == "quick" else 2500)
     lawcheck.replay_all(R, "C08", behs, limit=300 if tier == "quick" else 2500)
     for r in check_exc(pmap(_far_job, range(6 if tier == "quick" else 24))):
         R.case(["far", r["k"]], True, sample={"far_field_errors_per_decade": r["errs"]} if r["k"] == 0 else None, section="far")
